@@ -261,7 +261,14 @@ func Harness_C15_event_step() {
 func Harness_C15_invite_step() {
 	w := verifCallSetup()
 	t := w.t
-	from := verifChoose("fromSession", 4)
+	from := verifChoose("fromSession", 5)
+	if from == 4 {
+		// a root session attached to the topic on behalf of user A places the call for A
+		sr := verifNewSession("sid-root", verifRootUid, auth.LevelRoot, 32)
+		sr.inflightReqs = newBoundedWaitGroup(8)
+		w.fx.attach(sr, w.a, false)
+		w.sess[4], w.uids[4] = sr, w.a
+	}
 	s := w.sess[from]
 	uid := w.uids[from]
 	// the caller's write permission is arbitrary
